@@ -135,8 +135,9 @@ def signature(prog):
 class RealMachine(object):
     """Executes statements through the library.  vars[i] is the Formula bound to variable i."""
 
-    def __init__(self, table=None):
+    def __init__(self, table=None, other_table=None):
         self.table = table
+        self.other_table = other_table   # a second table, for formula(f, table=<another table>)
         self.vars = []
 
     def step(self, st):
@@ -171,7 +172,15 @@ class RealMachine(object):
             else:
                 r = formulas.formula('', **kw)
         elif op == 'copy':
-            r = formulas.formula(V[st['src']])
+            # formula(f), or formula(f, table=...): the keyword is documented for strings; whatever it does for a
+            # formula initializer, f itself is an operand and stays what it was
+            how = st.get('table')
+            if how == 'same':
+                r = formulas.formula(V[st['src']], table=T)
+            elif how == 'other' and self.other_table is not None:
+                r = formulas.formula(V[st['src']], table=self.other_table)
+            else:
+                r = formulas.formula(V[st['src']])
             V.append(r)
             return 'value', r, [V[st['src']]]
         elif op == 'alias':
@@ -474,6 +483,8 @@ class ProgramGen(object):
                 r = rng.random()
                 if r < 0.10:
                     st = {'op': 'copy', 'src': i}
+                    if rng.random() < 0.4:
+                        st['table'] = rng.choice(['same', 'other'])
                 elif r < 0.18:
                     st = {'op': 'alias', 'src': i}
                 elif r < 0.45:
